@@ -98,6 +98,7 @@ func CheckOnCurve(x, y []byte) bool {
 var one = big.NewInt(1)
 var n = internal.GetN()
 var nBytes = n.Bytes()
+var nBytes33 = append([]byte{0}, nBytes...)
 var nMinus1 = new(big.Int).Sub(n, one)
 var nMinus1Bytes = nMinus1.Bytes()
 var zBytes = internal.GetZBytes()
@@ -242,8 +243,11 @@ func SignHashed(rand io.Reader, priv, e []byte) (r, s []byte, err error) {
 
 		rkInt.Add(&rInt, &k)
 		// 标准要求排除的第二种情形
-		rkBytes := rkInt.Bytes()
-		if len(rkBytes) == 32 && utils.ConstantTimeCmp(rkBytes, nBytes, 32) == 0 {
+		// r + k < 2n < 2^257: compared on a fixed 33-byte encoding, so that only the verdict r + k = n
+		// (and not the length of the encoding of r + k) decides what is executed
+		var rkBuf [33]byte
+		rkInt.FillBytes(rkBuf[:])
+		if utils.ConstantTimeCmp(rkBuf[:], nBytes33, 33) == 0 {
 			continue
 		}
 
@@ -251,9 +255,8 @@ func SignHashed(rand io.Reader, priv, e []byte) (r, s []byte, err error) {
 		d1Int.Add(&dInt, one)
 
 		//SM2ScalarElement.SetBytes要求长度为32，因此，如果私钥实际长度短于32字节（标准不排除此种情形），左边补零（标准规定使用大端字节序）
-		d1Bytes := d1Int.Bytes()
 		var buf [32]byte
-		copy(buf[32-len(d1Bytes):], d1Bytes)
+		d1Int.FillBytes(buf[:]) // 1 + d <= n - 1 always fits; fixed width, independent of leading zero bytes of the key
 
 		d1.SetBytes(buf[:]) // priv = n - 1 已经被排除，因此不会导致 d1 = 0. 编译器告警此处可忽略，因私钥的范围已经在一开始就检查过了
 		d1Inv.Invert(&d1)   // **常数时间**算法 constant time inversion here, about 10% performance hit
